@@ -5,6 +5,7 @@ import (
 	"go/ast"
 	"go/token"
 	"go/types"
+	"golang.org/x/tools/go/cfg"
 
 	"pgoverif/checker/an"
 	"pgoverif/checker/core"
@@ -178,6 +179,23 @@ func runMBPublish(c *core.Ctx) {
 				}
 			}
 		}
+	}
+	for _, r := range resets {
+		cc := clauseOf(r)
+		if !clauseHasTag(cc, tags["tcpNetworkBegin"]) {
+			continue
+		}
+		if bb := g.BlockOfStmt(cc, cfg.KindSwitchCaseBody); bb != nil {
+			always := g.PassesWithin(bb, cc.Pos(), cc.End(), func(a ast.Node) bool {
+				as, ok := a.(*ast.AssignStmt)
+				return ok && len(as.Lhs) == 1 && len(as.Rhs) == 1 && an.ObjOf(info, as.Lhs[0]) == bufObj && isNilIdent(info, as.Rhs[0])
+			})
+			c.Check(always, "handleConn:buffer-reset-on-every-begin", r.Pos(), "every path through the begin arm discards the unfinished batch",
+				"the begin arm can be left without resetting the per-connection buffer: the sender's Abort sends nothing and relies on the next Begin to discard the aborted attempt's values, which would be delivered with the retry")
+		} else {
+			c.Lost("handleConn:begin-arm-block", "CFG block of the begin arm not found")
+		}
+		break
 	}
 	c.Check(beginReset, "handleConn:buffer-reset-on-begin", fn.Pos(), "Begin discards any unfinished batch", "the begin tag does not reset the per-connection buffer: values of an aborted attempt would be delivered with the retry")
 	c.Check(commitReset, "handleConn:buffer-reset-after-publish", fn.Pos(), "the buffer is emptied after publishing", "the per-connection buffer is not emptied after a commit: the next section on this connection would re-deliver the previous messages")
